@@ -85,6 +85,7 @@ class World:
             wall_timeout=wall_timeout,
         )
         core.activate(self.sim)
+        apps.reset_thread_context()
         self.db: str | None = None
         self.apps: dict[str, Any] = {}
         self.tlog: list[dict] = []  # transition log
